@@ -18,6 +18,11 @@ TRUSTED = [
     "tie T1: Gen.normalizeAxisInt regenerated from _utils.normalize_axis each run, validated exhaustively for |axis|<=8, ndim<=6",
     "tie T2: hand model COO.reduce (axis normalisation, transpose kept axes first, 2-D reshape, grouped left fold, fill correction via "
     "op(data, fill) or the super-ufunc, prune, reshape back, keepdims, 0-d -> scalar, admissibility test) compared with the implementation on representation",
+    "tie T2 (GCXS): hand model SparseV.Model.GcxsReduce (change_compressed_axes/_transpose, _reduce_calc = reduceat over indptr with the counts of stored "
+    "elements per row, fill correction, _reduce_return: prune + 1-d GCXS + reshape, keepdims reshape) compared with x.reduce(...) on the returned "
+    "(data, indices, indptr, shape, compressed_axes, fill) and, step by step, with every recorded call of change_compressed_axes / _reduce_calc / "
+    "reshape (arguments replayed through the model) plus direct calls of change_compressed_axes and reshape on random GCXS arrays; the "
+    "'no axes' and 'all axes' branches of GCXS._reduce_calc go through COO and are covered by the COO model and the NumPy oracle",
     "ufunc.reduceat is assumed to fold each segment left to right; accumulation dtypes and floating-point summation order are outside the theorems",
 ]
 UF = {"add": np.add, "multiply": np.multiply, "maximum": np.maximum, "minimum": np.minimum}
@@ -83,6 +88,148 @@ def leg_a(ctx, rng, n):
         ctx.case("A:reduce", case, nontrivial=bool(case["x"]["data"]))
         if out != want:
             ctx.fail("A", "model:reduce", case, f"model {str(out)[:500]} implementation {str(want)[:500]}")
+
+
+# ---------------------------------------------------------------------------------------------------
+# GCXS: model of GCXS._reduce_calc / _reduce_return vs the implementation, public level and step level
+# ---------------------------------------------------------------------------------------------------
+
+class ReduceTrace:
+    """records the calls x.reduce(...) makes to change_compressed_axes, _reduce_calc and reshape (arguments and results)"""
+
+    def __init__(self):
+        from sparse.numba_backend._compressed.compressed import GCXS
+
+        self.G = GCXS
+        self.calls = []
+        self.saved = {}
+
+    def __enter__(self):
+        import gx
+
+        for n in ("change_compressed_axes", "_reduce_calc", "reshape"):
+            f = getattr(self.G, n)
+            self.saved[n] = f
+
+            def wrap(obj, *a, _f=f, _n=n, **kw):
+                pre = gx.gcxs_json(obj) if obj.ndim >= 1 else None
+                r = _f(obj, *a, **kw)
+                rec = r
+                if _n == "_reduce_calc" and isinstance(r, tuple) and len(r) == 5:
+                    # `reduce` corrects `data` in place afterwards: keep what `_reduce_calc` returned
+                    rec = (np.array(r[0], copy=True), np.array(r[1], copy=True), r[2], r[3], r[4])
+                self.calls.append((_n, pre, a, kw, rec))
+                return r
+            setattr(self.G, n, wrap)
+        return self
+
+    def __exit__(self, *exc):
+        for n, f in self.saved.items():
+            setattr(self.G, n, f)
+
+
+def reduce_step_requests(calls, opn):
+    import gx
+    import sparse
+
+    out = []
+    for name, pre, a, kw, r in calls:
+        if pre is None:
+            continue
+        if name == "change_compressed_axes" and pre["caxes"] is not None and isinstance(r, sparse.GCXS):
+            new = [int(v) for v in a[0]]
+            out.append(("step:change_compressed_axes", ["gx_change_caxes", pre, new], {"ok": gx.gcxs_json(r)}, {"x": pre, "new": new}))
+        elif name == "reshape" and isinstance(r, sparse.GCXS) and not kw.get("compressed_axes"):
+            shp = a[0] if a else kw.get("shape")
+            shp = [int(v) for v in (shp if isinstance(shp, (tuple, list)) else [shp])]
+            if len(shp) >= 2 and all(v >= 0 for v in shp):
+                out.append(("step:reshape", ["gx_reshape", pre, shp], {"ok": gx.gcxs_json(r)}, {"x": pre, "shape": shp}))
+        elif name == "_reduce_calc" and isinstance(r, tuple) and len(r) == 5:
+            data, counts, _axis, n_cols, (x, _ca, indices) = r
+            xj = gx.gcxs_json(x)
+            R = len(xj["indptr"]) - 1
+            out.append(("step:_reduce_calc", ["gx_reduce_rows", opn, xj["indptr"], xj["data"], R],
+                        {"ok": {"indices": [int(v) for v in indices], "data": [int(v) for v in data], "counts": [int(v) for v in counts]}},
+                        {"op": opn, "indptr": xj["indptr"], "data": xj["data"], "R": R, "n_cols": int(n_cols)}))
+    return out
+
+
+def reshape_target(rng, shp):
+    """a different shape of rank >= 2 with the same number of elements"""
+    shp = list(shp)
+    for _ in range(20):
+        t = list(shp)
+        r = rng.random()
+        if r < 0.4 and len(t) >= 3:  # merge two adjacent axes
+            k = int(rng.integers(0, len(t) - 1))
+            t[k:k + 2] = [t[k] * t[k + 1]]
+        elif r < 0.7:  # split an axis
+            k = int(rng.integers(0, len(t)))
+            d = t[k]
+            fs = [f for f in range(1, d + 1) if d % f == 0] if d else [1]
+            f = int(rng.choice(fs))
+            t[k:k + 1] = [f, d // f] if d else [1, 0]
+        else:
+            t = [int(v) for v in rng.permutation(t)]
+        if len(t) >= 2 and t != shp:
+            return t
+    return None
+
+
+def leg_gcxs(ctx, rng, n_public, n_direct):
+    import sparse
+    import gx
+
+    reqs, metas, sreqs = [], [], []
+    for _ in range(n_public):
+        opn = str(rng.choice(list(UF)))
+        mul = opn == "multiply"
+        x, d, fill, route = gx.rand_gcxs(rng, fills=(0, 0, 1, -1) if mul else (0, 0, 1, 2, -1), max_size=40 if mul else 300,
+                                         lo=-2 if mul else -3, hi=2 if mul else 3, extents=[0, 1, 1, 2, 2, 3, 3, 4, 5])
+        nd = x.ndim
+        k = int(rng.integers(1, nd))
+        axes = [int(a) for a in rng.permutation(nd)[:k]]
+        if rng.random() < 0.5:
+            axes = sorted(axes)
+        raw = [a - nd if rng.random() < 0.3 else a for a in axes]
+        kd = bool(rng.random() < 0.4)
+        xj = gx.gcxs_json(x)
+        case = {"op": opn, "x": xj, "route": route, "axes": raw, "keepdims": kd}
+        with warnings.catch_warnings():
+            warnings.simplefilter("ignore")
+            with ReduceTrace() as tr:
+                try:
+                    want = gx.result_json(x.reduce(UF[opn], axis=tuple(raw), keepdims=kd))
+                except Exception as e:  # noqa: BLE001
+                    want = {"err": impl.err_class(e)}
+        reqs.append(["gx_reduce", opn, xj, axes, kd])
+        metas.append((case, want))
+        sreqs += reduce_step_requests(tr.calls, opn)
+    outs = ctx.driver.run(reqs)
+    for (case, want), out in zip(metas, outs):
+        ctx.case("A:gcxs_reduce", case, nontrivial=bool(case["x"]["data"]))
+        ctx.count("gcxs_reduce_" + ("err" if "err" in want else "array"))
+        if out != want:
+            ctx.fail("A", "model:gcxs_reduce", case, f"model {str(out)[:400]} implementation {str(want)[:400]}")
+    # ---- direct calls of change_compressed_axes and reshape
+    for _ in range(n_direct):
+        x, d, fill, route = gx.rand_gcxs(rng)
+        ch = gen.compressed_axes_choices(x.ndim)
+        new = [int(v) for v in ch[int(rng.integers(len(ch)))]]
+        with ReduceTrace() as tr:
+            x.change_compressed_axes(tuple(new))
+            t = reshape_target(rng, x.shape)
+            if t is not None and len(t) != x.ndim:
+                x.reshape(tuple(t))
+        sreqs += reduce_step_requests(tr.calls[:1] + [c for c in tr.calls[1:] if c[0] == "reshape"][:1], "add")
+    souts = ctx.driver.run([k[1] for k in sreqs])
+    fams = {}
+    for (fam, req, want, case), out in zip(sreqs, souts):
+        ctx.case("A:" + fam, case)
+        fams[fam] = fams.get(fam, 0) + 1
+        if out != want:
+            ctx.fail("A", fam, case, f"model {str(out)[:400]} implementation {str(want)[:400]}")
+    ctx.notes["gcxs_leg"] = {"public": n_public, "steps": fams}
 
 
 REDS = ["sum", "prod", "min", "max", "any", "all", "mean", "var", "std", "nansum", "nanprod", "nanmax", "nanmin", "nanmean", "ufunc.reduce"]
@@ -185,11 +332,15 @@ def compare_reduction(it, rt, fill, d):
 def run(ctx):
     ctx.trusted = TRUSTED
     ctx.assumptions = ["NumPy reductions of the densified array are the specification; float results compared with rtol 1e-6 (summation order is not specified)"]
-    core.prove(ctx, PID, uses=["normalizeAxisInt"])
+    core.prove(ctx, PID, extra_targets=["SparseV.Props.C03Gcxs"], uses=["normalizeAxisInt"])
     t1_validate(ctx)
     rng = gen.rng_for(ctx.seed, PID)
     leg_a(ctx, rng, 700 if ctx.quick else 7000)
+    leg_gcxs(ctx, gen.rng_for(ctx.seed, PID + ":gcxs"), 400 if ctx.quick else 5000, 200 if ctx.quick else 3000)
     leg_c(ctx, rng, 600 if ctx.quick else 7000)
     ctx.cov["rule"] = ("T1: (axis, ndim) box; leg A: add/multiply/maximum/minimum reduce on random COO (rank 0-4, fills {0,1,2,-1}) over random axis "
-                       "tuples (any order, negative, repeated/out of range), keepdims; model vs implementation on representation; leg C: 15 reductions x "
+                       "tuples (any order, negative, repeated/out of range), keepdims; model vs implementation on representation; leg A (GCXS): the same four ufuncs on "
+                       "random GCXS arrays (rank 2-4, every compressed_axes, CSR/CSC, zero extents) over non-empty proper axis subsets in any order / negative "
+                       "spelling, keepdims: model vs x.reduce on (data, indices, indptr, shape, compressed_axes, fill), every recorded change_compressed_axes / "
+                       "_reduce_calc / reshape call replayed through the model, direct change_compressed_axes and reshape calls; leg C: 15 reductions x "
                        "6 dtypes x COO/GCXS vs NumPy; non-trivial = non-empty array; distinct by content hash")
